@@ -149,5 +149,43 @@ def vtt_soup(rng):
   return "".join(out)
 
 
+# ---- STL: text fields made of every class of TF byte in any order ----------------------------------------------------------
+
+def _tf_byte(rng):
+  r = rng.random()
+  if r < 0.15:
+    return rng.randrange(0x00, 0x20)           # teletext control codes (colours, double height, start/end box ...)
+  if r < 0.45:
+    return rng.randrange(0x20, 0x80)           # printable
+  if r < 0.6:
+    return rng.choice([0x80, 0x81, 0x82, 0x83, 0x84, 0x85, 0x8a, 0x8a, 0x8f, 0x86, 0x89, 0x8b, 0x8e])
+  if r < 0.75:
+    return rng.randrange(0xc1, 0xd0)           # non-spacing diacritical marks
+  if r < 0.9:
+    return rng.randrange(0xa0, 0x100)
+  return rng.randrange(0x100)
+
+
+def stl_soup(rng, data: bytes) -> bytes:
+  """`data`: a valid STL file; the text field of some TTI blocks is replaced by a soup of TF bytes."""
+  b = bytearray(data)
+  nblocks = max(0, (len(b) - 1024) // 128)
+  for k in range(nblocks):
+    if rng.random() < 0.6:
+      off = 1024 + 128 * k + 16
+      n = rng.choice([0, 1, 2, 5, 20, 60, 112])
+      tf = bytes(_tf_byte(rng) for _ in range(n))
+      b[off:off + 112] = (tf + b"\x8f" * 112)[:112]
+      if rng.random() < 0.2:
+        b[off - 16 + 3] = rng.choice([0x00, 0x01, 0xfe, 0xff, 0x05])      # EBN: extension / user data / last
+      if rng.random() < 0.2:
+        b[off - 16 + 4] = rng.choice([0, 1, 2, 3, 9])                      # CS
+      if rng.random() < 0.2:
+        b[off - 16 + 13] = rng.choice([0, 1, 12, 23, 24, 99, 255])         # VP
+      if rng.random() < 0.2:
+        b[off - 16 + 14] = rng.choice([0, 1, 2, 3, 4, 255])                # JC
+  return bytes(b)
+
+
 def gen(rng, fmt):
   return {"scc": scc_soup, "srt": srt_soup, "vtt": vtt_soup}[fmt](rng).encode("utf-8", "replace")
